@@ -255,6 +255,22 @@ Definition produce_image (T : pixtable) (ox oy : nat) (t : texture) : outcome im
         Ok (image_map swap02 {| iw := t_w t + ox; ih := t_h t + oy; irows := pad ox oy (t_w t) content |})
   end.
 
+(* the bound on the padded image (fix d8a7ff5: at most b pixels, checked after the content was decoded);
+   `bound` is read from the source by gen/texfmt.py: Some b on a tree with the fix, None before it *)
+Definition over_bound (bound : option Z) (ox oy : nat) (t : texture) : bool :=
+  match bound with
+  | Some b => (b <? Z.of_nat (t_w t + ox) * Z.of_nat (t_h t + oy))%Z
+  | None => false
+  end.
+Definition extract_image (bound : option Z) (T : pixtable) (ox oy : nat) (t : texture) : outcome image :=
+  match format_of_num T (t_fmt t) with
+  | None => Err 20%nat
+  | Some f =>
+      if negb (Nat.eqb (length (t_data t)) (bpp_nat T f * t_w t * t_h t)) then Err 27%nat
+      else if over_bound bound ox oy t then Err 28%nat       (* "makes an unreasonably large image" *)
+      else produce_image T ox oy t
+  end.
+
 (* ------------------------------------------------------------------------------------------ *)
 (* SoftOption, working entries, image sources *)
 
